@@ -204,6 +204,9 @@ func (in *Interp) renderObsModel(v Value) string {
 		}
 		return fmt.Sprintf("%q", string(b))
 	case Slice:
+		if len(v.v) == 0 {
+			return "\"\""
+		}
 		allBytes := len(v.v) > 0
 		for _, e := range v.v {
 			if t, ok := e.(*Term); !ok || t.w != 8 {
@@ -238,6 +241,7 @@ func (in *Interp) stack(fr *Frame) []string {
 
 func (in *Interp) doAssert(fr *Frame, c *Term, label string) {
 	p := in.path
+	c = p.simp(in, c)
 	if len(p.trace) < len(p.prefix) {
 		// replaying a prefix: the path that generated it already checked this assertion
 		if !c.IsConst() {
